@@ -50,7 +50,7 @@ def attrsAfterAnswer (d : Dict) (e : Exc) (k : String) : Option Nat :=
   if k = "exception" ∨ k = "exc_info" then some e.id else dget d k
 
 /-- what an exception view must see -/
-def seenOf (e : Exc) : Seen := ⟨e.id, some e.id, some e.id, none⟩
+def seenOf (e : Exc) (k : ViewKind) : Seen := ⟨e.id, some e.id, some e.id, none, if k.receivesContext then some e.id else none⟩
 
 /-- the exception views competing for `e`, most specific first, and the first that qualifies -/
 def excWinner (w : World) (stmts : List Stmt) (r : Request) (e : Exc) (combinedSro : List Nat) : Option DView :=
@@ -66,9 +66,9 @@ def specRender (w : World) (stmts : List Stmt) (r : Request) (e : Exc) (combined
       ⟨.error w.excForbidden, none, dget d⟩
     else
       match bodyOf stmts v.tag with
-      | .respond => ⟨.ok (.view v.tag), some (seenOf e), attrsAfterAnswer d e⟩
-      | .returnContext => ⟨.ok (.self e.id e.status), some (seenOf e), attrsAfterAnswer d e⟩
-      | .raise e2 => ⟨.error (if e2.isNotFound then e else e2.again), some (seenOf e), dget d⟩
+      | .respond => ⟨.ok (.view v.tag), some (seenOf e (kindOf stmts v.tag)), attrsAfterAnswer d e⟩
+      | .returnContext => ⟨.ok (.self e.id e.status), some (seenOf e (kindOf stmts v.tag)), attrsAfterAnswer d e⟩
+      | .raise e2 => ⟨.error (if e2.isNotFound then e else e2.again), some (seenOf e (kindOf stmts v.tag)), dget d⟩
 
 def expected (w : World) (stmts : List Stmt) (site : Site) (r : Request) (combinedSro : List Nat) (ctxObj : Nat)
     (d : Dict) : SpecResult :=
@@ -92,9 +92,9 @@ def specCore (w : World) (stmts : List Stmt) (r1 : Request) (e : Exc) (combinedS
     if v.secured && !r1.permitted then ⟨.error (if reraise then e else w.excForbidden), none, prior⟩
     else
       match bodyOf stmts v.tag with
-      | .respond => ⟨.ok (.view v.tag), some (seenOf e), after⟩
-      | .returnContext => ⟨.ok (.self e.id e.status), some (seenOf e), after⟩
-      | .raise e2 => ⟨.error (if reraise then e else e2.again), some (seenOf e), prior⟩
+      | .respond => ⟨.ok (.view v.tag), some (seenOf e (kindOf stmts v.tag)), after⟩
+      | .returnContext => ⟨.ok (.self e.id e.status), some (seenOf e (kindOf stmts v.tag)), after⟩
+      | .raise e2 => ⟨.error (if reraise then e else e2.again), some (seenOf e (kindOf stmts v.tag)), prior⟩
 
 /-- `exc_info` not given ⇒ the exception being handled where the call is made -/
 def effectiveExc (args : InvokeArgs) (current : Exc) : Exc :=
